@@ -58,7 +58,7 @@ func pipelineVia(s, d *sp.API, p color.NRGBA, via string) (out [3]float64, alpha
 		c, alpha = s.FromNRGBA(p)
 	}
 	xyz := s.ToXYZ(c)
-	if s.White() != d.White() {
+	if s.White() != d.White() || via == "adapt-always" {
 		xyz = ciexyz.AdaptBetweenXYYWhitePoints(s.White(), d.White()).Apply(xyz)
 	}
 	dc := d.FromXYZ(xyz)
@@ -172,7 +172,9 @@ func viaNote(v string) string {
 	return " via " + v
 }
 
-var vias = []string{"rgba", "encoded", "encoded64"}
+// "adapt-always": the default constructors, with the adaptation step applied whether or not the white points differ
+// (between equal whites it is the identity)
+var vias = []string{"rgba", "encoded", "encoded64", "adapt-always"}
 
 func TestC04(t *testing.T) {
 	if ev.Replaying() != nil {
@@ -183,10 +185,22 @@ func TestC04(t *testing.T) {
 		if k, w, _ := check(c); k != "" {
 			ev.Fail(t, "pipeline", c.Src+"->"+c.Dst+"/"+k, w, c)
 		}
+		// the run that found the case had converted between every pair of spaces, in every variant, before: do a
+		// little of each and ask again (state carried from one conversion to the next)
+		for i := range sp.Spaces {
+			for j := range sp.Spaces {
+				for _, via := range append([]string{""}, vias...) {
+					check(Case{Src: sp.Spaces[i].Name, Dst: sp.Spaces[j].Name, R: 10, G: 200, B: 90, A: 255, Via: via})
+				}
+			}
+		}
+		if k, w, _ := check(c); k != "" {
+			ev.Fail(t, "pipeline", c.Src+"->"+c.Dst+"/"+k, "after conversions between every pair of spaces: "+w, c)
+		}
 		fmt.Println("REPLAY case passed:", c)
 		return
 	}
-	ev.Rule("16 ordered (source,destination) pairs x NRGBA pixels through the README pipeline (opaque pixels also through ColorFromRGBA/ToRGBA, ColorFromEncodedColor of NRGBA and NRGBA64, ToRGBA64). quick: 64^3 lattice incl. 0 and 255, all greys, the six cube faces at stride 3, all 256 alphas on 64 colours, rapid pixels; thorough: all 2^24 RGB at alpha 255 per pair plus 256 alphas x 4096 colours. non-trivial = distinct (pair, pixel) whose reference result is out of gamut in some channel or whose pair needs chromatic adaptation")
+	ev.Rule("16 ordered (source,destination) pairs x NRGBA pixels through the README pipeline (opaque pixels also through ColorFromRGBA/ToRGBA, ColorFromEncodedColor of NRGBA and NRGBA64, ToRGBA64, and with the adaptation step applied unconditionally - the identity between equal whites). quick: 64^3 lattice incl. 0 and 255, all greys, the six cube faces at stride 3, all 256 alphas on 64 colours, rapid pixels; thorough: all 2^24 RGB at alpha 255 per pair plus 256 alphas x 4096 colours. non-trivial = distinct (pair, pixel) whose reference result is out of gamut in some channel or whose pair needs chromatic adaptation")
 	ev.Assume("internal/ref EOTF/OETF, matrix derivation from the declared chromaticities, Bradford adaptation")
 	ev.Set("interval", map[string]float64{"half_step": halfStep, "half_code": 0.5, "slack_codes": slack})
 	var sampleMu sync.Mutex
